@@ -91,3 +91,86 @@ Proof.
   rewrite nth_error_app1; [exact H|]. apply nth_error_Some. congruence.
 Qed.
 
+
+(* ------------------------------------------------------------------ sequence numbers (C06)
+   Every file created in a session gets the next sequence number: along the list of files in creation
+   order (finalized files, then the open one) the numbers are strictly increasing and bounded by the
+   writer's counter.  All modes, all block layouts; no other invariant is needed. *)
+
+Fixpoint seq_incr (l : list Z) (bound : Z) : Prop :=
+  match l with
+  | [] => True
+  | x :: r => x <= bound /\ match r with [] => True | y :: _ => x < y end /\ seq_incr r bound
+  end.
+
+Definition SeqInv (st : wstate) : Prop := seq_incr (map f_seq (all_files st)) (w_seq st).
+
+Lemma seq_incr_mono l b b' : b <= b' -> seq_incr l b -> seq_incr l b'.
+Proof.
+  intros Hb. induction l as [|x r IH]; cbn [seq_incr]; [auto|].
+  intros (H1 & H2 & H3). repeat split; [lia|exact H2|apply IH; exact H3].
+Qed.
+
+Lemma seq_incr_snoc l b : seq_incr l b -> seq_incr (l ++ [b + 1]) (b + 1).
+Proof.
+  induction l as [|x r IH]; cbn [app seq_incr]; [intros _; repeat split; lia|].
+  intros (H1 & H2 & H3). split; [lia|]. split; [|apply IH; exact H3].
+  destruct r as [|y r']; cbn [app]; [lia|exact H2].
+Qed.
+
+Lemma all_files_finalize_seq st : w_failed st = false ->
+  map f_seq (finalize st) = map f_seq (all_files st).
+Proof.
+  intros Hnf. unfold finalize, all_files. destruct (w_openf st) as [a|]; [|rewrite app_nil_r; reflexivity].
+  rewrite Hnf. rewrite !map_app. reflexivity.
+Qed.
+
+Lemma wstf_seq c st sw bl vec : w_failed st = false -> SeqInv st ->
+  SeqInv (snd (write_samples_to_file c st sw bl vec)) /\
+  w_failed (snd (write_samples_to_file c st sw bl vec)) = false.
+Proof.
+  intros Hnf HS. unfold write_samples_to_file.
+  destruct bl as [|[g0 d0] tl]; [split; assumption|].
+  destruct (negb (d0 =? 0)); [split; assumption|].
+  destruct (create_rf_data_index _ _ _ _ _ _ _ _ _ _ _) as [[rows stw]|]; [|split; assumption].
+  unfold SeqInv in *.
+  destruct (negb _).
+  - destruct (has_final _ _); cbn [snd w_failed].
+    + split; [|exact Hnf]. unfold all_files. cbn [w_files w_openf w_seq]. rewrite app_nil_r.
+      rewrite (all_files_finalize_seq st Hnf). eapply seq_incr_mono; [|exact HS]. lia.
+    + split; [|exact Hnf]. unfold all_files at 1. cbn [w_files w_openf w_seq map f_seq].
+      rewrite map_app, (all_files_finalize_seq st Hnf). cbn [map f_seq]. apply seq_incr_snoc. exact HS.
+  - destruct (w_openf st) as [a|] eqn:Eo; [|split; assumption].
+    destruct (c_chunk c); cbn [snd w_failed]; (split; [|exact Hnf]);
+      unfold all_files in *; cbn [w_files w_openf w_seq]; rewrite Eo in HS;
+      rewrite map_app in *; cbn [map f_seq] in *; exact HS.
+Qed.
+
+Lemma write_loop_seq c bl vec : forall fuel st sw, w_failed st = false -> SeqInv st ->
+  SeqInv (snd (write_loop fuel c st sw bl vec)) /\ w_failed (snd (write_loop fuel c st sw bl vec)) = false.
+Proof.
+  induction fuel as [|fuel IH]; intros st sw Hnf HS; cbn [write_loop].
+  - destruct (sw <? _); split; assumption.
+  - destruct (sw <? _); [|split; assumption].
+    pose proof (wstf_seq c st sw bl vec Hnf HS) as (H1 & H2).
+    destruct (write_samples_to_file c st sw bl vec) as [[k|] st1]; cbn [snd] in *; [|split; assumption].
+    destruct (k =? 0); [split; assumption|]. apply IH; assumption.
+Qed.
+
+Theorem sequence_numbers_increase c st bl vec : SeqInv st -> SeqInv (snd (write_blocks c st bl vec)).
+Proof.
+  intros HS. unfold write_blocks. destruct (w_failed st) eqn:Hnf; [exact HS|].
+  destruct bl as [|[g0 d0] tl]; [exact HS|].
+  destruct (g0 <? w_gi st); [exact HS|].
+  destruct (c_cont c && _); [exact HS|]. apply (write_loop_seq c _ vec _ st 0 Hnf HS).
+Qed.
+
+Theorem sequence_numbers_history c ops :
+  SeqInv (fold_left (fun st op => snd (write_blocks c st (fst op) (snd op))) ops init_state).
+Proof.
+  assert (G : forall st, SeqInv st ->
+            SeqInv (fold_left (fun st op => snd (write_blocks c st (fst op) (snd op))) ops st)).
+  { induction ops as [|op ops IH]; intros st HS; cbn [fold_left]; [exact HS|].
+    apply IH. apply sequence_numbers_increase. exact HS. }
+  apply G. exact I.
+Qed.
